@@ -10,7 +10,7 @@ from ..ctx import Raised
 
 PROP = 'C14'
 C_EPS = 10.0
-RULE = ('cases = dmrg_cross(f,N,eps) and function_interpolate(f,x,eps) (one argument tensor; a list of d meshgrid tensors, or of d other rank-one int-valued tensors from which the multi-index is decodable - s_j*X_j and 2^{i_j}*3^{i_{j+1}}; a list of d coupled tensors x_j = X_j + n_j X_{j+1} that each vary along two modes) on targets with exact TT ranks 1..4 (dense image of '
+RULE = ('cases = dmrg_cross(f,N,eps) and function_interpolate(f,x,eps) (one argument tensor; a list of d meshgrid tensors, or of d other rank-one int-valued tensors from which the multi-index is decodable - s_j*X_j and 2^{i_j}*3^{i_{j+1}}; in a third of the accurate function_interpolate cases a SECOND call on the same argument object follows after one of its modes was reversed in place (set_core / raw write): it must return the reversed table; a list of d coupled tensors x_j = X_j + n_j X_{j+1} that each vary along two modes) on targets with exact TT ranks 1..4 (dense image of '
         'a random TT; the function is a table lookup) and smooth targets 1/(2+sum i) (fast-decaying ranks); order 2..5, mode sizes 2..20 incl. non-uniform and smaller than '
         'rank+kick (the wide-QR regime), dense size <= 5e4, eps log-uniform in [1e-10,1e-3], k internal seeds, optional start tensor, default sweep budgets. Two monitors: '
         '(1) CALLBACK RECORDER: every argument handed to the user function is checked online - dmrg_cross: int64 2-d tensor with exactly d columns, column k in [0,N[k]); '
@@ -19,7 +19,7 @@ RULE = ('cases = dmrg_cross(f,N,eps) and function_interpolate(f,x,eps) (one argu
 ASSUMPTIONS = ['"a small multiple of eps" fixed a priori as 10*eps', 'argument tensors of function_interpolate are int-valued (xfun index tensor / integer meshgrids) so that "is an actual entry" is an exact membership test',
                'the multivariate form is used as documented: d argument tensors for d modes']
 REQUIRED_REACH = ['interpolate:dmrg_cross', 'interpolate:function_interpolate', 'interpolate:_maxvol']
-REQUIRED_COUNTS = {'routine:dmrg_cross': 1, 'routine:interp_uni': 1, 'routine:interp_multi': 1, 'routine:interp_coupled': 1, 'callback_invocations': 100, 'callback_indices_checked': 1000, 'start:user': 1,
+REQUIRED_COUNTS = {'routine:dmrg_cross': 1, 'routine:interp_uni': 1, 'routine:interp_multi': 1, 'routine:interp_coupled': 1, 'second_use_after_argument_changed': 5, 'callback_invocations': 100, 'callback_indices_checked': 1000, 'start:user': 1,
                    'regime:mode<rank+kick': 1, 'executions': 100}
 LINE_FUNCS = ['dmrg_cross', 'function_interpolate', '_maxvol']
 CASE_TIMEOUT = {'quick': 300, 'thorough': 600}
@@ -281,5 +281,42 @@ def run_case(case, ctx):
         ctx.viol(('%s/clause=%s' % (routine, clause)) if fails < 3 else (key + '/clause=' + clause),
                  '%s: ||D(y)-T||/||T|| = %.3e = %.3g * eps; result ranks %s; callback invocations %d; the same call under 6 other internal seeds failed %d times' % (
                      what, err / nt, ratio, [int(r) for r in y.R], cb['calls'], fails))
+    elif routine in ('interp_uni', 'interp_multi') and case['seed'] % 3 == 0 and (routine == 'interp_uni' or form == 'grid') and max(N) >= 2:
+        # ---- second use of the SAME argument object after it was changed in place: mode k of the argument reversed (set_core with a core of the same shape, or a raw
+        # in-place write).  The function values are now T reversed along k; anything the first call left behind (on the object, in the module) must not be used.
+        k2 = [k_ for k_ in range(d) if N[k_] >= 2][case['seed'] // 3 % len([k_ for k_ in range(d) if N[k_] >= 2])]
+        obj = xarg if routine == 'interp_uni' else xs[k2]
+        flipped = obj.cores[k2].flip(1).clone()
+        if case['seed'] // 3 % 2 == 0:
+            r2 = ctx.lib('set_core', lambda a: a.set_core(k2, flipped), obj, inplace=(obj,))
+        else:
+            def wr(a):
+                with torch.no_grad():
+                    a.cores[k2].copy_(flipped)
+            r2 = ctx.lib('core_write(in place)', wr, obj, inplace=(obj,), resnap_all=True)
+        if not isinstance(r2, Raised):
+            ctx.count('second_use_after_argument_changed')
+            cb['bad'] = None
+            T2 = Tt.flip(k2)
+            fails, runs, last = 0, 0, None
+            for j in range(5):
+                if j:
+                    torch.manual_seed((case['seed'] + 104729 * j) % (2 ** 31))
+                yj = invoke()
+                runs += 1
+                bad = isinstance(yj, Raised) or not isinstance(yj, torchtt.TT) or [int(m) for m in yj.N] != list(N)
+                if not bad:
+                    e2 = dn.fro(dn.D(yj) - T2)
+                    bad = not e2 <= C_EPS * eps * nt + 1e3 * 2.3e-16 * nt
+                    last = e2
+                fails += bad
+                if not bad and j == 0:
+                    break           # the ordinary outcome: accurate at once
+            if cb['bad'] is not None:
+                ctx.viol(key + '/second-use/clause=callback-argument', '%s, argument mode %d reversed in place, second call: %s' % (what, k2, cb['bad']))
+            if fails >= 3:
+                ctx.viol(key + '/second-use/clause=error>10eps', '%s: second call after mode %d of the argument was reversed in place: %d of %d executions miss the bound (last error %s)' % (what, k2, fails, runs, last))
+            elif fails:
+                ctx.viol('%s/clause=error>10eps/seed-dependent-false-convergence' % routine, '%s (second call on the changed argument): %d of %d executions miss the bound' % (what, fails, runs))
     if cb['calls'] > 0 and nt > 0:
         ctx.nontrivial((routine, case['target'], tuple(N), tuple(case['R']), int(math.log10(eps)), case['start'], case.get('tscale', 1.0), case['sidx']))
